@@ -81,13 +81,14 @@ theorem dec_bag (fuel : Nat) (m : List (String × Json)) (pn : Option String) (e
     (h2 : entriesOf? m = some e) (h3 : Json.optStr? m "name" = some n)
     (h4 : Json.get? "range" m = some (.str rs))
     (h5 : Json.get? "values" m = some (.arr l))
-    (h6 : l.mapM (bagItem (parseRange rs)) = some vals) :
+    (h6 : l.mapM (bagItem (parseRange rs)) = some vals)
+    (h7 : (vals.map (·.1)).Nodup) :
     decodeFrag (fuel+1) "Bag" (.obj m) pn =
       some (.node (.bag (deadQty (resolveName n pn)) (parseRange rs)) e (.bag vals) none []) := by
   simp only [decodeFrag, h1, h2, h3, h4, h5]
   simp
   rw [mapM_congr_fun l _ (bagItem (parseRange rs)) ?_, h6]
-  · cases n <;> rfl
+  · cases n <;> simp [h7, resolveName]
   · intro x; cases x <;> simp [bagItem]
 
 /-! ### containers -/
